@@ -201,6 +201,41 @@ func renderStar(p lPkg) string {
 	return s
 }
 
+// renderMakeBlock writes the annotation in YAML block style (indented lists and maps under their keys)
+func renderMakeBlock(p lPkg) string {
+	var b strings.Builder
+	b.WriteString("# @grog\n")
+	blockList := func(key string, xs []string) {
+		if len(xs) == 0 {
+			return
+		}
+		fmt.Fprintf(&b, "# %s:\n", key)
+		for _, x := range xs {
+			fmt.Fprintf(&b, "#   - %q\n", x)
+		}
+	}
+	blockList("dependencies", p.T.Deps)
+	blockList("inputs", p.T.Inputs)
+	blockList("outputs", p.T.Outputs)
+	if p.T.Nocache {
+		blockList("tags", []string{"no-cache"})
+	}
+	if p.T.Fp {
+		b.WriteString("# fingerprint:\n#   k: v\n")
+	}
+	if p.T.Platforms == "linux" {
+		blockList("platforms", []string{"linux/amd64"})
+	}
+	if p.T.Timeout != "" {
+		fmt.Fprintf(&b, "# timeout: %s\n", p.T.Timeout)
+	}
+	if !strings.Contains(b.String(), "\n# ") {
+		b.WriteString("# tags: []\n")
+	}
+	fmt.Fprintf(&b, "%s:\n\techo building\n", p.T.Name)
+	return b.String()
+}
+
 func renderMake(p lPkg) string {
 	var b strings.Builder
 	b.WriteString("# @grog\n")
@@ -389,6 +424,9 @@ func loaderDriver(args []string) error {
 		{"makefile", "Makefile", renderMake, func(p lPkg) bool {
 			return p.DefaultPlatforms == "unset" && !p.WithAlias && !p.T.Bin && len(p.T.Excludes) == 0
 		}},
+		{"makefile-block", "Makefile", renderMakeBlock, func(p lPkg) bool {
+			return p.DefaultPlatforms == "unset" && !p.WithAlias && !p.T.Bin && len(p.T.Excludes) == 0
+		}},
 	}
 	var samplesForCorruption []string
 	for ci, c := range cs.Packages {
@@ -421,7 +459,7 @@ func loaderDriver(args []string) error {
 				got, _ := canon(o.pkgs)
 				g, ok := got[want.Label]
 				w := want
-				if r.name == "makefile" {
+				if strings.HasPrefix(r.name, "makefile") {
 					w.Command = "make " + c.Pkg.T.Name
 				}
 				wa := w.Alias
